@@ -155,6 +155,17 @@ def gen_inputs(run):
                 out.append(("nesting-units", (head + op * depth + "x := 1;\n" + cl * depth + tail).encode()))
             mix = [rng.choice(list(forms)) for _ in range(depth)]
             out.append(("nesting-units", (head + "".join(forms[m][0] for m in mix) + "x := 1;\n" + "".join(forms[m][1] for m in reversed(mix)) + tail).encode()))
+    # long tokens with characters of two, three and four bytes at every offset, as the token a syntax error is reported at (the
+    # message quotes it), as a valid token, and unterminated: whatever slices or measures a token's text must do so on
+    # character boundaries
+    for ch in ("\u00fc", "\u20ac", "\U0001d11e"):
+        for lead in range(0, 140 if thorough else 70):
+            body = "a" * lead + ch + "b" * 3
+            for tokn in ("'%s'" % body, "\"%s\"" % body, "(* %s *)" % body, "// %s" % body):
+                out.append(("long-token", ("PROGRAM p\nVAR s : STRING; END_VAR\ns := CONCAT(s %s\n);\nEND_PROGRAM\n" % tokn).encode()))
+            out.append(("long-token", ("PROGRAM p\nVAR s : STRING; END_VAR\ns := '%s';\nEND_PROGRAM\n" % body).encode()))
+            out.append(("long-token", ("PROGRAM p\nVAR s : STRING; END_VAR\ns := '%s\nEND_PROGRAM\n" % body).encode()))
+            out.append(("long-token", ("PROGRAM p\nVAR %s : INT; END_VAR\nEND_PROGRAM\n" % body).encode()))
     for depth in range(1, 13):
         e = "(" * depth + "1" + ")" * depth
         out.append(("nesting", ("PROGRAM p\nVAR x : INT; END_VAR\nx := %s;\nEND_PROGRAM\n" % e).encode()))
@@ -193,7 +204,7 @@ def search(run, info):
     return {"coverage": {
         "rule": "inputs = every token kind alone, pairs of token kinds, arbitrary bytes (0-200 bytes and 64 KiB), 64 KiB of ASCII noise and "
                 "of repeated valid programs, token soups, token-level mutants (delete / duplicate / swap / replace) of generated programs, "
-                "extreme literals in four contexts, the OSCAT description markers in every arrangement of up to four pieces, bracket / statement / call nesting to depth 12 (closed and unclosed); each through "
+                "extreme literals in four contexts, long tokens with multi-byte characters at every offset (offending, valid, unterminated), the OSCAT description markers in every arrangement of up to four pieces, bracket / statement / call nesting to depth 12 (closed and unclosed); each through "
                 "tokenize, parse, analyze, render under catch_unwind with a %.0f s per-input watchdog; non-trivial = non-empty input, "
                 "distinct by content and build" % BUDGET_S,
         "builds": [b for b, _ in builds],
